@@ -1,11 +1,11 @@
 SPECIFICATION Spec
 CONSTANTS
-  KindNames = {"nested", "outer", "inner"}
+  KindNames = {"nested", "inner"}
   QFieldSeq <- FS5
   MaxA = 2
   MaxC = 1
   MaxB = 1
-  MaxNodes = 3
+  MaxNodes = 2
   L2Forms = {}
   Ordered = FALSE
   Classes = {"boolx", "disjx"}
